@@ -37,7 +37,7 @@ const keyIntoDesc = "C18-rename-into-descendant"
 
 func TestMain(m *testing.M) {
 	fkit.QuietGlog(vlib.TempDir())
-	vlib.Rule("C18: rapid op sequences (4-24 ops: create file/dir with missing parents, O_EXCL create, update, delete recursive or not with/without data, AtomicRenameEntry to new names, onto existing files/dirs, across directories, into own descendants) over paths {a,ab,b,c}^<=3 (a is a proper string prefix of its sibling ab) under a per-case root on leveldb, leveldb2, leveldb3 (plain and under /buckets/x) and an in-memory store, plus exhaustive sequences over the 5 paths /a /ab /a/a /a/ab /ab/a. A few aging histories create files with ttl 1 s / 3600 s / none in not yet existing directory paths, add, move and delete entries, sleep 2.1 s once and re-check that everything except ttl-1 files is still there with all ancestors. Non-trivial = history containing a successful rename of an existing entry or a recursive delete of a non-empty directory (aging histories: always, each starts with a ttl-1 file below auto-created directories). Distinct = distinct op sequence incl. store kind.")
+	vlib.Rule("C18: rapid op sequences (4-24 ops: create file/dir with missing parents, O_EXCL create, update, delete recursive or not with/without data, AtomicRenameEntry to new names, onto existing files/dirs, across directories, into own descendants) over paths {a,ab,b,c}^<=3 (a is a proper string prefix of its sibling ab) under a per-case root on leveldb, leveldb2, leveldb3 (plain and under /buckets/x) and an in-memory store, plus exhaustive sequences over the 5 paths /a /ab /a/a /a/ab /ab/a. A few aging histories create files with ttl 1 s / 3600 s / none in not yet existing directory paths, add, move and delete entries, sleep 2.1 s once and re-check that everything except ttl-1 files is still there with all ancestors. Non-trivial = history containing a successful rename of an existing entry or a recursive delete of a non-empty directory (aging histories: always, each starts with a ttl-1 file below auto-created directories; bucket histories, where the case root is the buckets directory of the filer and is deleted recursively at the end: content two or more levels below a bucket directory). Distinct = distinct op sequence incl. store kind.")
 	vlib.Assume("Directories are created the way every real client does it (filer_pb.Mkdir, mount, S3): IsDirectory=true together with the os.ModeDir bit in Attributes.FileMode.")
 	vlib.Assume("Merge semantics of a rename onto an existing directory are taken from the implementation (children are moved one by one, same-named files are overwritten); where a rename must fail half-way (type conflict below the top level) or the target is an ancestor of the source, only the weaker invariant 'well-formed tree, no file lost or duplicated, bystanders untouched' is required.")
 	vlib.Assume("No master / volume servers: chunk deletion requests resolve no location and contact nobody; the metadata log buffer is replaced by one without flush function.")
@@ -818,8 +818,10 @@ func newRunner(kind string, bucket bool, fail func(string, ...interface{})) *run
 func (r *runner) history() string { return strings.Join(r.hist, "; ") }
 
 // step executes one operation and checks the outcome against the model.
-func (r *runner) step(o op) {
-	ex := expectOp(r.m, o)
+func (r *runner) step(o op) { r.stepWith(o, expectOp(r.m, o)) }
+
+// stepWith executes o and checks it against the given expectation.
+func (r *runner) stepWith(o op, ex expect) {
 	r.cls[ex.class] = true
 	if ex.intoDesc {
 		// executed in a child process; the in-process store is not touched
@@ -1232,6 +1234,142 @@ func TestPropNamespaceAging(t *testing.T) {
 		}
 		sort.Strings(cl[1:])
 		vlib.Case(strings.Join(desc, " || "), true, cl...)
+	})
+}
+
+// ---------------------------------------------------------------- bucket directories
+
+// The children of Filer.DirBucketsPath are bucket directories (filer_buckets.go:
+// a directory whose parent is DirBucketsPath and that went through
+// maybeAddBucket when it was created, explicitly or as a missing parent). A
+// recursive delete takes a different path through them
+// (doBatchDeleteFolderMetaAndData: the walk is skipped only for stores that can
+// drop a whole bucket), and renames may not cross buckets (CanRename). Here the
+// case root itself is made the buckets directory, so that /a /ab /b /c are
+// buckets: generated histories build content two and more levels below them,
+// the final recursive delete of the root has to remove all of it (direct lookups
+// of every path ever used and of the whole universe; the in-memory store is
+// scanned), and re-creating the directories afterwards must not make anything
+// reappear.
+//
+// Deleting or renaming a bucket directory itself asks the master to delete the
+// collection and waits for a master forever; without a master the histories
+// therefore only delete / move entries at depth >= 2.
+
+func depthOf(p string) int { return strings.Count(p, "/") }
+
+func bucketOf(relParent string) string {
+	if relParent == "" {
+		return ""
+	}
+	s := relParent[1:]
+	if i := strings.Index(s, "/"); i >= 0 {
+		return s[:i]
+	}
+	return s
+}
+
+// expectBucketOp is expectOp plus the rule that a rename may not leave its bucket.
+func expectBucketOp(m model, o op) expect {
+	if o.Kind == "rename" && bucketOf(parentOf(o.P)) != bucketOf(parentOf(o.Q)) {
+		return expect{err: mustFail, after: m, class: "rename-cross-bucket"}
+	}
+	return expectOp(m, o)
+}
+
+var bucketVariants = []struct {
+	kind   string
+	bucket bool
+}{{fkit.LevelDB, false}, {fkit.LevelDB2, false}, {fkit.LevelDB3, false}, {fkit.LevelDB3, true}, {fkit.Mem, false}, {fkit.Mem, false}}
+
+func TestPropNamespaceBuckets(t *testing.T) {
+	vlib.Check(t, 600, 12000, func(t *rapid.T) {
+		v := rapid.SampledFrom(bucketVariants).Draw(t, "store")
+		r := newRunner(v.kind, v.bucket, t.Fatalf)
+		old := r.e.f.DirBucketsPath
+		r.e.f.DirBucketsPath = r.root
+		defer func() { r.e.f.DirBucketsPath = old }()
+		r.hist[0] += " bucketsdir=root"
+		nops := rapid.IntRange(3, 16).Draw(t, "nops")
+		for i := 0; i < nops; i++ {
+			o := op{Tok: "t" + strconv.Itoa(i)}
+			k := rapid.IntRange(0, 19).Draw(t, "op")
+			switch {
+			case k < 7:
+				o.Kind = "mkfile"
+			case k < 10:
+				o.Kind = "mkdir"
+			case k < 11:
+				o.Kind = "update"
+			case k < 14:
+				o.Kind = "delete"
+			default:
+				o.Kind = "rename"
+			}
+			o.P = drawPath(t, r.m, "p")
+			switch o.Kind {
+			case "mkfile", "mkdir":
+				o.Excl = rapid.IntRange(0, 4).Draw(t, "excl") == 0
+			case "update":
+				o.AsDir = r.m[o.P].Dir
+			case "delete":
+				o.Rec = rapid.Bool().Draw(t, "rec")
+				o.Data = rapid.Bool().Draw(t, "data")
+			case "rename":
+				o.Q = drawPath(t, r.m, "q")
+				if rapid.Bool().Draw(t, "samebucket") && depthOf(o.P) >= 2 && depthOf(o.Q) >= 2 {
+					// keep the target inside the source's bucket
+					o.Q = "/" + bucketOf(parentOf(o.P)) + o.Q[strings.Index(o.Q[1:], "/")+1:]
+				}
+			}
+			if (o.Kind == "delete" || o.Kind == "rename") && depthOf(o.P) < 2 {
+				continue // would delete a bucket directory: needs a master
+			}
+			ex := expectBucketOp(r.m, o)
+			if ex.intoDesc {
+				continue // covered by TestPropNamespace (child process)
+			}
+			r.stepWith(o, ex)
+		}
+		// directories of the final tree, for the re-creation below
+		var dirs []string
+		deep := false
+		for k, n := range r.m {
+			if k != "" && n.Dir {
+				dirs = append(dirs, k)
+			}
+			if depthOf(k) >= 3 {
+				deep = true
+			}
+		}
+		sort.Strings(dirs)
+		r.finish() // recursive delete of the buckets directory: every bucket and everything below must be gone
+		want := model{"": {Dir: true}}
+		for i, d := range dirs {
+			o := op{Kind: "mkdir", P: d, Tok: "r" + strconv.Itoa(i)}
+			if msg := r.e.apply(r.root, o); msg != "" {
+				t.Fatalf("re-creating %s after the recursive delete: %s\n  history: %s", d, msg, r.history())
+			}
+			want[d] = node{Dir: true, Tok: o.Tok}
+		}
+		actual, err := r.e.snapshot(r.root)
+		if err != nil {
+			t.Fatalf("listing after re-creation: %v", err)
+		}
+		if d := diffModels(want, actual); d != "" {
+			t.Fatalf("after deleting the buckets directory recursively and re-creating its directories, old entries reappear: %s\n  history: %s\n  tree before the delete: %s", d, r.history(), r.m)
+		}
+		r.m = want
+		r.finish()
+		if deep {
+			r.cls["bucket-content-depth>=2"] = true
+		}
+		r.nontr = deep // non-trivial here: the recursive delete had to remove content two or more levels below a bucket
+		label := "buckets-" + v.kind
+		if v.bucket {
+			label += "/bucket"
+		}
+		r.record(label)
 	})
 }
 
